@@ -27,6 +27,10 @@ impl<K: Hash + Eq, V> Builder<K, V> {
         }
     }
 
+    pub fn contains_key(&self, key: &K) -> bool {
+        self.map.contains_key(key)
+    }
+
     pub fn entry(&mut self, key: K) -> Entry<'_, K, V> {
         let ind = self.map.len();
         match self.map.entry(key) {
